@@ -85,6 +85,50 @@ def mask_support_rule(chk, repo, clause):
            det or f'{n} path(s)', f.loc())
 
 
+def sample_order_rule(chk, repo, clause):
+    """Spectrum.sample evaluates the interpolant at the requested wavelengths, in the requested order:
+    value k of the result belongs to wavelength k of the request."""
+    f, paths, _ = analyse(repo, 'radiometry.Spectrum.sample')
+    ok, n, det = True, 0, ''
+    for p in returns(paths):
+        cvs = [a for a in nf.value_atoms(p.ret) if is_app(a, 'callv') and isinstance(a[2][0], Poly)
+               and a[2][0].single_atom() is not None and is_app(a[2][0].single_atom(), 'scipy.interpolate.interp1d')]
+        if len(cvs) != 1:
+            ok, det = None if ok else ok, f'undecided: result {fmt(p.ret)[:120]} is not one interp1d evaluation'
+            continue
+        n += 1
+        arg = cvs[0][2][1] if len(cvs[0][2]) > 1 else None
+        at = nf.strip_apps(arg, ('copy', 'cast', 'm:copy', 'm:ravel', 'm:reshape')) if arg is not None else None
+        whole = nf.strip_apps(p.ret, ('copy', 'cast', 'm:copy', 'm:reshape')) == Poly.atom(cvs[0])
+        good = at == S('wave') and whole
+        if not good:
+            ok, det = False, f'evaluated at {fmt(arg)[:80]}; returned {fmt(p.ret)[:60]}...'
+    chk.ob(clause, 'D-order', f.key, 'values are returned for the requested wavelengths in the requested order',
+           (ok and n > 0) if ok is not None else None, det or f'{n} path(s): interp(wave)', f.loc())
+
+
+def bayer_string_rule(chk, repo, clause):
+    """format_bayer_string reads the pattern row by row: character r*dim + c is pixel (r, c)."""
+    f, paths, _ = analyse(repo, 'detector.format_bayer_string')
+    ok, det = None, 'construction of the pattern array not recognised'
+    for p in returns(paths):
+        strided = [a for a in nf.value_atoms(p.ret) if a[0] == 'idx' and isinstance(a[2], Slice) and a[2].step != NONE
+                   and ('sym', 'bayer_string') in nf.value_atoms(Poly.atom(a[1]))]
+        transposed = [a for a in nf.value_atoms(p.ret) if is_app(a, ('T', 'transpose', 'm:transpose', 'swapaxes', 'm:swapaxes'))
+                      or (a[0] == 'attr' and a[2] == 'T')]
+        ra = p.ret.single_atom() if isinstance(p.ret, Poly) else None
+        forder = any(isinstance(x, Tup) and any(isinstance(pr, Tup) and pr.items[0] == Const('order') and pr.items[1] != Const('C')
+                                                 for pr in x.items) for a in nf.value_atoms(p.ret) if is_app(a, 'm:reshape') for x in a[2])
+        if strided or transposed or forder:
+            ok, det = False, ('rows are taken with a stride through the string' if strided else
+                              'the character grid is transposed / reshaped in column-major order') + \
+                ': character r*dim + c does not land on pixel (r, c)'
+            break
+        if ra is not None and is_app(ra, 'm:reshape') and ('sym', 'bayer_string') in nf.value_atoms(ra[2][0]):
+            ok, det = True, 'characters in string order reshaped to (dim, dim) in C order'
+    chk.ob(clause, 'U-axis', f.key, 'the pattern string is read row-major', ok, det, f.loc())
+
+
 def fit_tilt_rules(chk, repo, clause):
     """Least squares against the whole piston/tip/tilt basis of the (segment's) mask; only the
     tip/tilt part is removed, per segment inside that segment's mask; the pieces are summed."""
